@@ -20,4 +20,20 @@ def straight : List Stmt → Bool
   | [.panic _] => true
   | s :: rest => straightStmt s && straight rest
 
+mutual
+/-- no loop, `break` or `continue` (the part of the scalar fragment whose Batch lines are if-chains and simple lines) -/
+def noLoopStmt : Stmt → Bool
+  | .ifS _ body elifs els => noLoopStmts body && noLoopElifs elifs && noLoopStmts els
+  | .forS _ _ _ _ => false
+  | .brk => false
+  | .cont => false
+  | _ => true
+def noLoopStmts : List Stmt → Bool
+  | [] => true
+  | s :: rest => noLoopStmt s && noLoopStmts rest
+def noLoopElifs : List (Expr × List Stmt) → Bool
+  | [] => true
+  | (_, b) :: rest => noLoopStmts b && noLoopElifs rest
+end
+
 end Tsh.C05S
